@@ -1033,6 +1033,19 @@ class Evaluator:
             def sl(b: AV) -> AV:
                 if isinstance(b, SymObj):
                     return SymObj(f'{b.path}[{norm(node.slice)}]')
+                its = self.items(st, b)
+                if its is not None:
+                    bounds = []
+                    for part in (node.slice.lower, node.slice.upper, node.slice.step):
+                        if part is None:
+                            bounds.append(None)
+                            continue
+                        pv = self.eval(part, st, ctx)
+                        if not self.is_concrete_number(pv):
+                            raise Undecided('slice of a concrete sequence with a symbolic bound')
+                        bounds.append(int(self.scalar(pv).const_value()))
+                    out = its[slice(*bounds)]
+                    return Tup(list(out)) if isinstance(b, Tup) else self.new_list(st, list(out))
                 raise Undecided('slice')
             return self.lift(sl, base)
         idx = self.eval(node.slice, st, ctx)
@@ -1461,12 +1474,20 @@ class Evaluator:
                     its = self.items(st, x)
                     if its is not None and name in ('tuple', 'list'):
                         return Tup(its) if name == 'tuple' else self.new_list(st, its)
+                    if its is not None and name == 'reversed':
+                        return Tup(list(reversed(its)))
                     if its is not None and not its:
                         return Tup([])
                     if isinstance(x, SymObj):
                         return x if name in ('tuple', 'list') else SymObj(f'{name}({x.path})')
                     raise Undecided(f'{name}() of {x!r}')
                 return self.lift(_seq, args[0])
+            if name == 'enumerate' and len(args) == 1 and not kwargs:
+                its = self.items(st, args[0]) if not isinstance(args[0], Cond) else None
+                if its is not None:
+                    return Tup([Tup([Scalar(i_), x_]) for i_, x_ in enumerate(its)])
+            if name == 'range' and 1 <= len(args) <= 3 and all(self.is_concrete_number(a_) for a_ in args):
+                return Tup([Scalar(k_) for k_ in range(*[int(self.scalar(a_).const_value()) for a_ in args])])
             if name == 'getattr' and len(args) >= 2 and isinstance(args[1], Const) and isinstance(args[1].value, str):
                 def _ga(o: AV) -> AV:
                     if isinstance(o, Inst):
@@ -1684,6 +1705,14 @@ class Evaluator:
             if isinstance(s, ast.If):
                 tv = self.eval(s.test, st, ctx)
                 return self.branch(tv, s.body, s.orelse, rest, st, ctx)
+            if isinstance(s, ast.For) and getattr(self, 'unroll', False):
+                try:
+                    itv = self.eval(s.iter, st, ctx)
+                    its_ = self.items(st, itv) if not isinstance(itv, Cond) else None
+                except Undecided:
+                    its_ = None
+                if its_ is not None:
+                    return self.unroll_for(s, list(its_), 0, rest, st, ctx)
             if isinstance(s, (ast.While, ast.For)):
                 self.havoc_loop(s, st, ctx)
                 early = self.loop_early_exits(s, st, ctx)
@@ -1823,6 +1852,23 @@ class Evaluator:
             self.assign(s.target, v, st, ctx)
             return v
         return None
+
+    def unroll_for(self, loop: ast.For, its: List[AV], i: int, rest, st: State, ctx: Ctx):
+        """`for` over a sequence whose items are known (opt-in, self.unroll): iteration by iteration."""
+        if i >= len(its):
+            return self.exec_block(list(loop.orelse) + list(rest), st, ctx)
+        self.assign(loop.target, its[i], st, ctx)
+        tree = self.exec_block(list(loop.body), st, ctx)
+
+        def cont(t):
+            if isinstance(t, Branch):
+                return Branch(t.test, cont(t.then), cont(t.orelse))
+            if t.kind in ('fall', 'continue'):
+                return self.unroll_for(loop, its, i + 1, rest, t.state, ctx)
+            if t.kind == 'break':
+                return self.exec_block(list(rest), t.state, ctx)
+            return t
+        return cont(tree)
 
     def loop_early_exits(self, loop, st: State, ctx: Ctx):
         """Outcome tree of the ways the loop body leaves the function (return / raise), evaluated once on the havocked
